@@ -182,6 +182,11 @@ def check_c15(rng, n, thorough=False):
                             try:
                                 r1 = dm.generate_delay(rt)
                                 r2 = DelayModel(prob, dist, DelayModel.DelayDegree[deg], seed=seed).generate_delay(rt)
+                                r3 = dm.generate_delay(rt)          # the same object asked again
+                                import copy as _copy
+                                r4 = _copy.copy(dm).generate_delay(rt)   # a per-task copy, as the planners make
+                                if not (r1 == r3 == r4):
+                                    r2 = ("same-object", r1, r3, r4)
                                 impl = "ok %d" % int(r1)
                                 err = None
                             except Exception as e:   # noqa
@@ -489,13 +494,18 @@ def check_c14(rng, n):
             pos = {t.id: k for k, t in enumerate(plan.tasks)}
             if any(pos[u.id] >= pos[v.id] for u, v in plan.graph.edges):
                 bad.append("tasks not in topological order")
-            for t in plan.tasks:
-                preds = [x.id for x in plan.get_task_predecessors(t)]
-                for p in plan.tasks:
-                    succ = [x.id for x in plan.get_task_successors(p)]
-                    if (p.id in preds) != (t.id in succ):
-                        bad.append("predecessor/successor queries disagree")
-                        break
+            if sorted(x.id for x in plan.graph.nodes) != sorted(ids):
+                bad.append("graph nodes are not the plan's tasks")
+            try:
+                for t in plan.tasks:
+                    preds = [x.id for x in plan.get_task_predecessors(t)]
+                    for p in plan.tasks:
+                        succ = [x.id for x in plan.get_task_successors(p)]
+                        if (p.id in preds) != (t.id in succ):
+                            bad.append("predecessor/successor queries disagree")
+                            break
+            except Exception as e:   # noqa
+                bad.append("queries raise %s" % type(e).__name__)
             # the networkx contract the Lean model assumes (IsTopo)
             topo = list(nx.algorithms.topological_sort(g))
             ipos = {n_: k for k, n_ in enumerate(topo)}
@@ -560,6 +570,33 @@ def check_c11(rng, n, thorough=False):
                                               "detail": "", "input": {"spec": spec}})
             sim.start(runtime=2)
             before = (h.env.now, len(sim.monitor.df), len(sim.monitor.events))
+            # the run-until-finished form of start() is a pause point like any other
+            h2 = runsim.SimHandle(spec)
+            try:
+                s2 = h2.sim
+                s2.start()
+                T2 = h2.env.now
+                try:
+                    s2.resume(until=T2 + 2)
+                    ref = runsim.run_spec(spec, until=int(T2) + 2)
+                    got = runsim.outputs(s2)
+                    if got["rows"] != ref["out"]["rows"] or got["events"] != ref["out"]["events"]:
+                        res["violations"].append({"prop": "C11", "kind": "paused-run-differs", "sig": "paused-run-differs:after-completion",
+                                                  "detail": "start(); resume(T+2) differs from start(T+2)", "input": {"spec": spec}})
+                except RuntimeError as e:
+                    res["violations"].append({"prop": "C11", "kind": "resume-after-completed-start-refused", "sig": "resume-refused-after-start",
+                                              "detail": repr(e)[:120], "input": {"spec": spec}})
+                n_before = (h2.env.now, len(s2.monitor.df))
+                try:
+                    s2.start()
+                    res["violations"].append({"prop": "C11", "kind": "second-start-accepted", "sig": "second-start-after-completion",
+                                              "detail": "", "input": {"spec": spec}})
+                except RuntimeError:
+                    if (h2.env.now, len(s2.monitor.df)) != n_before:
+                        res["violations"].append({"prop": "C11", "kind": "refused-call-changed-state", "sig": "refused-changed",
+                                                  "detail": "", "input": {"spec": spec}})
+            finally:
+                h2.close()
             try:
                 sim.start(runtime=4)
                 res["violations"].append({"prop": "C11", "kind": "second-start-accepted", "sig": "second-start",
@@ -618,7 +655,15 @@ def check_c10(rng, n, hashseeds=("0", "1", "2")):
                 spec["cold"]["capacity"] = spec["hot"]["capacity"] + 5
                 spec["hot"]["rate"] = max([spec["hot"]["rate"]] + [o["rate"] for o in spec["observations"]])
                 spec["total_arrays"] = max(spec["total_arrays"], max(o["demand"] for o in spec["observations"]))
-                if spec.get("delay") and "prob" in spec["delay"]:
+                if rng.random() < 0.5:
+                    # an active delay model with runtimes long enough for the delay to show
+                    spec["delay"] = {"prob": rng.choice([0.3, 0.5, 0.7]), "degree": rng.choice(["MID", "HIGH"]),
+                                     "seed": rng.randint(0, 60)}
+                    mx = max(m["flops"] for m in spec["machines"])
+                    for o in spec["observations"]:
+                        for nd in o["workflow"]["nodes"]:
+                            nd["comp"] = mx * rng.randint(8, 20)
+                elif spec.get("delay") and "prob" in spec["delay"]:
                     spec["delay"] = None
             outs = []
             for w in workers:
@@ -626,10 +671,12 @@ def check_c10(rng, n, hashseeds=("0", "1", "2")):
                 w.stdin.flush()
             for w in workers:
                 outs.append(w.stdout.readline().strip())
-            # and twice in this process
+            # and twice in this process -- the second and third run share ONE delay-model object
             a = runsim.run_spec(spec, max_steps=400)
-            b = runsim.run_spec(spec, max_steps=400)
-            same_inproc = (a["out"] == b["out"] and a["end"] == b["end"])
+            shared = {}
+            b = runsim.run_spec(spec, max_steps=400, shared=shared)
+            c = runsim.run_spec(spec, max_steps=400, shared=shared)
+            same_inproc = (a["out"] == b["out"] and a["end"] == b["end"] and b["out"] == c["out"] and b["end"] == c["end"])
             res["evaluations"] += 1
             ntasks = sum(len(o["workflow"]["nodes"]) for o in spec["observations"])
             if ntasks >= 3 and len(spec["machines"]) >= 2:
